@@ -149,6 +149,9 @@ def make_command(case: dict[str, Any], d: Path) -> Any:
         h = case[f"{v}_hook"]
         if h == "ok":
             common[f"{v}_hook"] = f'env > "{d}/{v}.env"; echo out-{v}; echo err-{v} >&2'
+        elif h == "slow":
+            # a hook that simply takes its time (power-cycling a test bench, waiting for a boot): it is not a failing hook
+            common[f"{v}_hook"] = f'env > "{d}/{v}.env"; echo out-{v}; sleep 11'
         elif h == "fail":
             common[f"{v}_hook"] = f'env > "{d}/{v}.env"; echo out-{v}; exit 7'
         elif h == "missing":
@@ -251,6 +254,12 @@ def run_case(case: dict[str, Any], d: Path) -> dict[str, Any]:
                 tr.is_closed = False
                 return tr
 
+        if case.get("twice") and case["db"] == "off":
+            # the same command has just been run with the same artifacts base (a script that calls gallia in a loop): that run's
+            # artifacts are its own
+            prev = make_command({**case, "kind": "return", "point": "main", "pre_hook": "none", "post_hook": "none", "db_close": None}, d)
+            with mock.patch("gallia.plugins.plugin.load_transport", lambda target: Loader):
+                res["prev_rc"] = await prev.entry_point()
         cmd = make_command(case, d)
         res["cmd"] = cmd
         res["start_config"] = json.loads(cmd.config.model_dump_json())
@@ -340,6 +349,13 @@ def observe(case: dict[str, Any], d: Path, res: dict[str, Any]) -> dict[str, Any
     if case["artifacts"]:
         runs = sorted((d / "artifacts").glob("*/run-*"))
         obs["n_runs"] = len(runs)
+        if case.get("twice") and case["db"] == "off" and len(runs) >= 1:
+            try:
+                obs["prev_meta"] = json.loads((runs[0] / "META.json").read_text())
+                with PenlogReader(runs[0] / "log.json.zst") as rd:
+                    obs["prev_markers"] = [r.data for r in rd.records() if r.data.startswith("marker ")]
+            except Exception as e:  # noqa: BLE001
+                obs["prev_error"] = f"{type(e).__name__}: {e}"
         if runs:
             a = runs[-1]
             meta_f = a / "META.json"
@@ -445,6 +461,12 @@ def check(case: dict[str, Any]) -> list[tuple[str, str]]:
         return [(f"C15/exception-escapes-entry_point/{obs['escaped'].split(':')[0]}/{site}", f"{ctx}: {obs['escaped']}")]
     if obs["rc"] != exp:
         out.append((f"C15/exit-code/{obs['rc']}-instead-of-{exp}/{where}", f"{ctx}: entry_point() returned {obs['rc']}"))
+    if case["artifacts"] and case.get("twice") and case["db"] == "off":
+        good = [f"marker {w} {x}" for w in ("setup", "main", "teardown") for x in ("1", "2 ✓")]
+        if obs.get("n_runs") != 2:
+            out.append(("C15/two-runs-share-one-artifacts-dir", f"{ctx}: two runs one after the other left {obs.get('n_runs')} run directories"))
+        elif obs.get("prev_error") or (obs.get("prev_meta") or {}).get("exit_code") != 0 or obs.get("prev_markers") != good:
+            out.append(("C15/earlier-run-artifacts-damaged", f"{ctx}: first run: {obs.get('prev_error')} META {obs.get('prev_meta')} markers {obs.get('prev_markers')}"))
     if case["artifacts"]:
         meta = obs.get("meta")
         if meta is None:
@@ -504,7 +526,7 @@ def check(case: dict[str, Any]) -> list[tuple[str, str]]:
                 if not any(f"{v}-hook" in m for m in obs["reported"]):
                     out.append((f"C15/failing-hook-not-reported/{v}/{case[f'{v}_hook']}", f"{ctx}: warnings and errors of the run: {obs['reported'][:4]}"))
         for v in ("pre", "post"):
-            if case[f"{v}_hook"] in ("ok", "fail", "signal"):
+            if case[f"{v}_hook"] in ("ok", "fail", "signal", "slow"):
                 env = obs.get(f"{v}_env")
                 if env is None:
                     if v == "post" or case["db"] not in DB_OPEN_FAILS:
@@ -535,6 +557,7 @@ def case_s(draw) -> dict[str, Any]:
             "artifacts": draw(st.booleans()), "db": draw(st.sampled_from(["off", "on", "on", "on", "dir", "garbage", "schema"])), "lock": draw(st.booleans()),
             "hooks_enabled": draw(st.sampled_from([True, True, True, False])), "pre_hook": draw(st.sampled_from(HOOKS)), "post_hook": draw(st.sampled_from(HOOKS)),
             "db_close": draw(st.sampled_from([None, None, None, None, "complete", "disconnect", "complete-ve", "disconnect-ve"])),
+            "twice": draw(st.integers(0, 3)) == 0,
             "rich": draw(st.one_of(st.none(), st.fixed_dictionaries({
                 "pdu": st.binary(min_size=0, max_size=6).map(bytes.hex), "service": st.sampled_from([0x10, 0x22, 0x27, 0x3E]),
                 "ids": st.lists(st.integers(0, 0xFFFF), max_size=4, unique=True).map(sorted), "mask": st.integers(0, 0xFFFF), "count": st.integers(0, 2**31)})))}
@@ -560,7 +583,7 @@ def shards(tier: str) -> list[dict[str, Any]]:
         return [{"what": "gen", "n": 120} for _ in range(15)] + [{"what": "cli", "pick": 4}]
     g = len(grid())
     return [{"what": "grid", "part": i, "parts": 16, "total": g} for i in range(16)] + [{"what": "gen", "n": 2500} for _ in range(8)] + \
-        [{"what": "cli", "part": i, "parts": 4} for i in range(4)]
+        [{"what": "cli", "part": i, "parts": 4} for i in range(4)] + [{"what": "slow-hooks", "part": i} for i in range(4)]
 
 
 def check_cli(case: dict[str, Any]) -> list[tuple[str, str]]:
@@ -753,6 +776,12 @@ def run_shard(spec: dict[str, Any], seed: int) -> Collector:
             col.case(str(c), True, cls=(f"cli/{'ecu' if c['ecu'] else 'no-ecu'}/db-{c['db']}" if c["kind"] == "cli" else f"cli/sigint/db-{c['db']}"), sample=c)
             for b, m in res:
                 col.violation(b, c, m)
+        return col
+    if spec["what"] == "slow-hooks":
+        # real time: each case waits for an 11 s hook (thorough tier only)
+        i = spec["part"]
+        body({"cmd": CMDS[i % len(CMDS)], "kind": KINDS[(seed + i) % len(KINDS)], "point": "main", "artifacts": True, "db": "on" if i % 2 else "off", "lock": True,
+              "hooks_enabled": True, "pre_hook": "slow" if i < 2 else "ok", "post_hook": "slow" if i >= 2 else "ok", "db_close": None, "rich": None})
         return col
     if spec["what"] == "grid":
         g = grid()
